@@ -261,11 +261,15 @@ package store
 
 //@ func (dr *dirRepo) indexSave(locked bool) (err error)
 //@   ensures [own-error]{C05} err != types.ErrBlobExists
+//@   -- a successful save has put a new file in place of index.json (C09: what is acknowledged afterwards is on disk)
+//@   ensures [index-json-replaced]{C09,C10} err == nil ==> renamedTo(pathJoin(dr.path, "index.json")) > old(renamedTo(pathJoin(dr.path, "index.json")))
 //@   assert [encoded-into-the-file-that-is-renamed]{C09,C10} before "os.Rename(": lastEncodeTarget() == objOf(fh)
 
 //@ func (d *dir) gc(cur time.Time, prev time.Time) (err error)
 //@   requires [not-read-only]{C14} !*roPtr()
 //@   loop 1: exits [failing-repository-does-not-end-the-pass]{C06} only "stop signal received"
+//@   -- a repository is skipped only if it was not modified since (a little before) the previous pass, whatever the frequency
+//@   assert [window-reaches-back-to-the-previous-pass]{C06} before "repo.timeMod.Before(start)": start <= prev
 
 //@ func (d *dir) gcTicker()
 //@   requires stable [not-read-only]{C14} !*roPtr()
@@ -382,6 +386,9 @@ package store
 //@   forbid [no-relock-while-locked]{C17} "repo.BlobDelete("
 //@   forbid [no-relock-while-locked]{C17} "repo.BlobGet("
 //@   ensures [already-stored-is-not-a-failure]{C17} err != types.ErrBlobExists
+//@   -- every subject whose response had to be regenerated gets its index entry, also when the response blob was already
+//@   -- there (an interrupted conversion that is repeated): otherwise the fallback tag is dropped and the referrers are lost
+//@   loop 4: invariant [regenerated-responses-registered]{C17,C09} uses(4:regenerated-responses-registered) siteCount(Index.AddDesc, 1) == visitedCount
 
 //@ -- C05, "recent" means recently acknowledged: an upload that is closed, and a BlobCreate that answers "exists" (which the
 //@ -- handlers acknowledge with 201), leave the blob with an age not older than the start of the call, so the grace
@@ -394,6 +401,7 @@ package store
 //@ -- return is the reaction to the stop signal
 //@ func (m *mem) gc(cur time.Time, prev time.Time) (err error)
 //@   loop 2: exits [failing-repository-does-not-end-the-pass]{C06} only "stop signal received"
+//@   assert [window-reaches-back-to-the-previous-pass]{C06} before "repo.timeMod.Before(start)": start <= prev
 
 //@ -- ------------------------------------------------------------------
 //@ -- C09 / C10, ordering and naming clauses of the directory store (not a crash enumeration, see DESIGN.md 11):
@@ -402,6 +410,9 @@ package store
 //@ -- digest the digester reports; what a collection saves is the index it computed.
 
 //@ func (dru *dirRepoUpload) Close() (err error)
+//@   -- a successful Close has moved the file of this session (with its recent mtime) into the blob store, also when a
+//@   -- file of that name was there before (C05: recent means recently acknowledged; C02, C09)
+//@   ensures [acknowledged-means-moved]{C05,C02,C09} err == nil ==> renamedTo(blobName) > old(renamedTo(now(blobName)))
 //@   assert [blob-name-is-its-digest]{C10,C01} before "os.Rename(dru.filename": blobName == pathJoin(pathJoin(pathJoin(dru.path, "blobs"), algOf(digestNow(dru.d))), hexOf(digestNow(dru.d)))
 
 //@ func (dr *dirRepo) gc$2() (err error)
@@ -422,6 +433,7 @@ package store
 //@   ensures [uploads-cache-kept]{C20} uploadsInv(recv.uploads)
 
 //@ funcs dirRepo.repoInit dirRepo.indexSave dirRepo.indexLoad
+//@   ensures [renames-only-grow] forall p: string :: renamedTo(p) >= old(renamedTo(p))
 //@   ensures [other-locks-untouched] forall m: Ref :: m != mutexAddr(recv.mu) ==> (heldAt(m) <==> old(heldAt(m)))
 
 //@ funcs dirRepo.IndexInsert dirRepo.IndexRemove dirRepo.BlobSession dirRepo.blobCreate dirRepo.BlobCreate dirRepo.indexLoad
@@ -442,6 +454,7 @@ package store
 
 //@ func (dr *dirRepo) IndexInsert(desc types.Descriptor, opts []types.IndexOpt) (err error)
 //@   requires [one-kind]{C18} types.tagOf(desc) == "" || types.subjOf(desc) == ""
+//@   ensures [acknowledged-means-saved]{C09,C10} err == nil ==> renamedTo(pathJoin(dr.path, "index.json")) > old(renamedTo(pathJoin(dr.path, "index.json")))
 //@   requires invariant [annotations-owned-by-caller] types.addNoAlias(dr.index, desc)
 
 //@ -- the index read from disk is taken to be well-formed (see above): stated, open
@@ -453,3 +466,6 @@ package store
 
 //@ funcs dirRepo.gc
 //@   requires invariant [uploads-cache] uploadsInv(recv.uploads)
+
+//@ func (dr *dirRepo) IndexRemove(desc types.Descriptor) (err error)
+//@   ensures [acknowledged-means-saved]{C09,C10} err == nil ==> renamedTo(pathJoin(dr.path, "index.json")) > old(renamedTo(pathJoin(dr.path, "index.json")))
